@@ -1584,6 +1584,11 @@ DECODE_MORE:
         {
             /* Printf("THIS SHOULD BE A NEGATIVE VALUE?\n"); */
         }
+        /* Whatever failed (also an allocation while the reply flight was
+           built), the handshake state is not usable any more: make the
+           calls that may follow - a flush of the out buffer, a DTLS
+           flight resend - refuse the session. */
+        ssl->flags |= SSL_FLAGS_ERROR;
         return decodeErr; /* Will be a negative value */
 
     case SSL_ALERT:
